@@ -137,11 +137,16 @@ fn main() {
             rep.evaluations += 1;
             let s = seed.wrapping_mul(1_000_003).wrapping_add(rep.evaluations).wrapping_add(rr);
             let p2 = prog.clone();
-            let res = rt.block_on(async move { tokio::time::timeout(std::time::Duration::from_secs(5), run_prog(p2, s)).await });
+            let mut res = rt.block_on(async move { tokio::time::timeout(std::time::Duration::from_secs(5), run_prog(p2, s)).await });
+            if res.is_err() {
+                // a loaded machine must not turn into a verdict: the same run again with a much longer limit
+                let p3 = prog.clone();
+                res = rt.block_on(async move { tokio::time::timeout(std::time::Duration::from_secs(90), run_prog(p3, s)).await });
+            }
             let tag = json!({"prog": pv, "seed": s, "allowed": outs});
             match res {
                 Err(_) => {
-                    rep.fail("scope_hang", "scope::run! did not return within 5 s although every task of the program can finish (a task is not joined, or cancellation does not reach a waiting task)", tag);
+                    rep.fail("scope_hang", "scope::run! did not return within 5 s, nor within 90 s when run again, although every task of the program can finish (a task is not joined, or cancellation does not reach a waiting task)", tag);
                     break;
                 }
                 Ok((out, finished)) => {
